@@ -174,7 +174,7 @@ impl Pw {
                     let chit = &rn.chit;
                     crate::common::guarded(|| chit.verif_create_syn_message()).map_err(|p| self.v("C04", "C04.panic", format!("create_syn_message panicked: {p}")))?
                 };
-                let syn_bytes = chitchat::Serializable::serialize_to_vec(&syn);
+                let syn_bytes = crate::common::guarded(|| chitchat::Serializable::serialize_to_vec(&syn)).map_err(|p| self.v("C04", "C04.panic", format!("serializing a SYN panicked: {p}")))?;
                 let reply = sn.send_bytes(&syn_bytes).map_err(|p| self.v("C04", "C04.panic", format!("sender panicked on the receiver's SYN: {p}")))?;
                 let Some(Reply::Bytes(_, synack)) = reply else { return Ok(()) };
                 let deltas = synack.ops().and_then(|o| codec::group_ops(o)).unwrap_or_default();
